@@ -115,6 +115,77 @@ theorem no_replay (W W' : World) (s : Int) (p : Presentation) (mid : List (World
     simp only at hc
     omega
 
+/-! ### the whole history at once: accepted non-zero counters are strictly increasing -/
+
+/-- counters of the accepted presentations of a history, in order of acceptance -/
+def acceptedCtrs (s : Int) : List (World × Presentation) → List Nat
+  | [] => []
+  | (W, p) :: rest =>
+    if (rpStep W s p).2 then ctr p.cred :: acceptedCtrs (rpStep W s p).1 rest
+    else acceptedCtrs (rpStep W s p).1 rest
+
+/-- every non-zero counter accepted anywhere in a history exceeds the counter stored at its start -/
+theorem accepted_gt_start (s : Int) (hist : List (World × Presentation)) :
+    ∀ c ∈ acceptedCtrs s hist, c ≠ 0 → s < (c : Int) := by
+  induction hist generalizing s with
+  | nil => intro c hc; simp [acceptedCtrs] at hc
+  | cons wp rest ih =>
+    obtain ⟨W, p⟩ := wp
+    intro c hc hnz
+    have hm := rpStep_mono W s p
+    unfold acceptedCtrs at hc
+    split at hc
+    · rename_i hacc
+      obtain ⟨hst, hok⟩ := accepted_bounds_state W s p hacc
+      rcases List.mem_cons.mp hc with rfl | hc'
+      · unfold Spec.counterOk at hok; omega
+      · have := ih _ c hc' hnz; omega
+    · have := ih _ c hc hnz; omega
+
+/-- In any history (replays, reordering, any library behaviour at each step) the non-zero counters of
+the accepted assertions form a strictly increasing sequence: in particular no two accepted
+assertions carry the same non-zero counter. -/
+theorem accepted_strictly_increasing (s : Int) (hist : List (World × Presentation)) :
+    ((acceptedCtrs s hist).filter (· ≠ 0)).Pairwise (· < ·) := by
+  induction hist generalizing s with
+  | nil => simp [acceptedCtrs]
+  | cons wp rest ih =>
+    obtain ⟨W, p⟩ := wp
+    unfold acceptedCtrs
+    split
+    · rename_i hacc
+      obtain ⟨hst, _⟩ := accepted_bounds_state W s p hacc
+      by_cases hz : ctr p.cred = 0
+      · simpa [List.filter_cons, hz] using ih _
+      · rw [List.filter_cons_of_pos (by simpa using hz)]
+        refine List.Pairwise.cons ?_ (ih _)
+        intro c hc
+        obtain ⟨hc1, hc2⟩ := List.mem_filter.mp hc
+        have := accepted_gt_start _ rest c hc1 (by simpa using hc2)
+        omega
+    · exact ih _
+
+/-- … and the stored counter at the end is the last accepted counter (or the initial one). -/
+theorem final_state (s : Int) (hist : List (World × Presentation)) :
+    rpRun s hist = ((acceptedCtrs s hist).getLast?.map Int.ofNat).getD s := by
+  induction hist generalizing s with
+  | nil => simp [rpRun, acceptedCtrs]
+  | cons wp rest ih =>
+    obtain ⟨W, p⟩ := wp
+    unfold acceptedCtrs rpRun
+    split
+    · rename_i hacc
+      obtain ⟨hst, _⟩ := accepted_bounds_state W s p hacc
+      rw [ih]
+      cases hl : acceptedCtrs (rpStep W s p).1 rest with
+      | nil => simp [hst]
+      | cons x xs => simp [List.getLast?_cons]
+    · rename_i hrej
+      have : (rpStep W s p).1 = s := by
+        unfold rpStep at hrej ⊢
+        split <;> simp_all
+      rw [ih, this]
+
 /-! non-vacuity -/
 example : Spec.counterOk 5 4 ∧ Spec.counterOk 0 0 ∧ ¬ Spec.counterOk 4 4 ∧ ¬ Spec.counterOk 0 3 := by
   unfold Spec.counterOk; omega
